@@ -17,5 +17,8 @@ from vlib import build
 print('plain:', build.shadow('plain'))
 print('asan :', build.shadow('asan'))
 "
-if [ -f vlib/selftest.py ]; then /venv/bin/python -B vlib/selftest.py; fi
+# trust anchors of the reference implementations (RFC 9001 / 9369 vectors, TLS 1.3 interop); a failure is reported, the checks that depend
+# on them would then fail on their own controls
+/venv/bin/python -B vlib/refquic_selftest.py >/dev/null 2>&1 && echo "refquic self-test ok" || echo "setup: WARNING refquic self-test failed"
+/venv/bin/python -B vlib/reftls_selftest.py >/dev/null 2>&1 && echo "reftls self-test ok" || echo "setup: WARNING reftls self-test failed"
 echo setup ok
